@@ -19,11 +19,19 @@ alphabets at every (record, sample) position; the same VCF read through several 
 long decimal float texts (printf '%.Nf' / '%.Ne' output with N = 15..30, digit strings of 17..30 digits with the dot at every
 kind of position, i.e. texts beyond 18 digits / beyond int64 when read as one integer) in every float column (bedGraph, wig,
 narrowPeak x 3, VCF INFO Float Number=1 and Number=A) next to short neighbours, compared with float(text) within 16 ulp.
+Two or more ADJACENT comment lines (GFF3, wig): every assignment of 0..2 (thorough 0..3) comment lines to the gaps before / between /
+after 1..3 records with at least one run of >= 2, runs of 3 and 4 at every gap (zone adjacent-comments).
+Operation histories (zone other-header-before:<relation>): 2..3 files of one format with DIFFERENT headers read one after the other
+in this process, each compared with the spec-level parse of its own text: VCF (all five buffer types) with one / two / all INFO keys
+declared with another Type or Number, the declarations in another order, under other IDs, IDs exchanged, keys added / removed, with
+and without INFO lines, same declarations but other Description / ##source / sample count; columns evaluated right after each read
+or after all reads (lazy objects); every other format with another number of header lines and records.
 
 Signatures: <format>:<column>:wrong-value:<zone> | <format>:count:wrong-number-of-entries:<zone> |
 <format>:exception:<root cause type>:<zone>; zone = class of the input (plain, empty, dot+number, signed, sci,
-list-trailing-comma, crlf, header, interior-comments, comment-with-tab, short-info-text, long-float, long-float-sci, ...),
-never the varied column.
+list-trailing-comma, crlf, header, interior-comments, comment-with-tab, short-info-text, long-float, long-float-sci,
+adjacent-comments, other-header-before:<relation of the header to the one read before> ...), never the varied column; in the
+history cases all INFO keys share the column label 'info'.
 """
 import itertools
 import math
@@ -1178,9 +1186,15 @@ def run(tier="quick", seed=0):
                     "genotype alphabets rotated through every (record, sample) position, 0..3 samples.  Long decimal float texts (printf "
                     "%%.Nf / %%.Ne output, 17..30-digit strings with the dot at first/middle/last/no position, both signs) once in every "
                     "float column of bedGraph, wig, narrowPeak and as VCF INFO Float scalar / list element, 1..3 records, rotating "
-                    "record position, short neighbours; compared with float(text) within %d ulp.  No random sampling (seed unused). "
+                    "record position, short neighbours; compared with float(text) within %d ulp.  GFF3 / wig: every assignment of 0..%d "
+                    "comment lines to the n+1 gaps around 1..3 records with a run of >= 2 adjacent lines, runs of 3 and 4 at every gap.  "
+                    "Histories in one process: 2..3 files with different headers read one after the other (VCF: one/two/all INFO keys "
+                    "re-declared with every other (Number, Type), order / IDs changed or exchanged, keys added or removed, with / without "
+                    "INFO lines, same declarations in another header; five buffer types; lazy or eager, columns evaluated after each read "
+                    "or after all reads; other formats: other header lines and record counts), each file against the spec-level parse of "
+                    "its own text.  No random sampling (seed unused). "
                     "distinct = distinct (format, file text, read mode); every case is non-trivial (>= 1 record whose offsets are computed)"
-                    % ("" if quick else ",10", 10 if quick else len(INFO_PATTERNS), LONG_FLOAT_ULPS))
+                    % ("" if quick else ",10", 10 if quick else len(INFO_PATTERNS), LONG_FLOAT_ULPS, 2 if quick else 3))
     col.bounds = {"records": "1..3", "text widths": [0, 1, 2, 7], "int digits": [1, 2, 7] + ([] if quick else [10]),
                   "float tokens": FLOAT_TOKENS, "list lengths": "1..3", "samples": "0..3", "header lines": "0..3",
                   "interior comments": "every subset of the n+1 gaps, n = 1..3",
@@ -1188,6 +1202,13 @@ def run(tier="quick", seed=0):
                   "info keys": [k for k, _, _ in INFO_DECL], "info patterns": len(INFO_PATTERNS),
                   "formats": list(FORMATS) + list(EXTRA_FORMATS), "line ends": ["LF", "CRLF"],
                   "read modes": ["lazy", "eager", "raw"],
+                  "adjacent comments": "gff3, wig; 1..3 records; 0..%d comment lines per gap, >= 1 run of >= 2; runs of 3, 4 at each gap; "
+                                       "%d line texts" % (2 if quick else 3, len(ADJ_COMMENT_LINES)),
+                  "histories": "files per history 2..3, records per file 1..3; VCF INFO keys %s, (Number, Type) in %s; %d histories per "
+                               "buffer type (%s); (read mode, order) in %s; other formats: 3 histories each"
+                               % ([k for k, _, _ in HS_BASE], ["%s/%s" % c for c in HS_COMBOS], len(list(hs_relations(tier))),
+                                  "vcf-info all, genotype buffer types every 6th" if quick else "all five buffer types",
+                                  ["%s/%s" % v for v in HS_VARIANTS]),
                   "long float texts": "%d tokens: '%%.Nf' N in %s, '%%.Ne' N in %s of %d values 5e-7..1.2e8; digit strings of %s digits; "
                                       "float columns: bedgraph.value, wig.value, narrowpeak.signal/p/q_value, vcf INFO D (Number=1), "
                                       "AF (Number=A); tolerance %d ulp"
